@@ -620,7 +620,7 @@ open TLX.Keylog
     `file₂` or none. If the two key logs (`-s` file, then the blocks) are alike for every session (`SameView`), the
     outcomes are THE SAME: byte-identical output files, or the same abort. The packets sit at other positions in the two
     captures, so `Ingest` numbers them differently; `framesFrom_alike` is what bridges that. -/
-theorem export_key_delivery_independent_files (args : Args) (legacy₁ legacy₂ : Bool) (file₁ file₂ : Option Str)
+theorem export_key_delivery_files (args : Args) (legacy₁ legacy₂ : Bool) (file₁ file₂ : Option Str)
     (cap₁ cap₂ : Bytes) (T₁ T₂ : List Bytes) (R : List Container.Item) (ended : Option Container.Err)
     (hr₁ : Container.readPrefix legacy₁ cap₁ = .ok (T₁.map Container.Item.dsb ++ R, ended))
     (hr₂ : Container.readPrefix legacy₂ cap₂ = .ok (T₂.map Container.Item.dsb ++ R, ended))
